@@ -232,11 +232,13 @@ func (m *Manager) CreateAllocation( // nolint: cyclop
 
 	m.log.Debugf("Listening on relay address: %s", alloc.RelayAddr)
 
+	// Arm the lifetime timer and register the allocation in one critical section: a timer
+	// that expires before the allocation is registered would find nothing to delete and
+	// leave behind an allocation that never expires.
+	m.lock.Lock()
 	alloc.lifetimeTimer = time.AfterFunc(lifetime, func() {
 		m.deleteAllocation(alloc.fiveTuple, alloc)
 	})
-
-	m.lock.Lock()
 	m.allocations[fiveTuple.Fingerprint()] = alloc
 	m.lock.Unlock()
 
